@@ -142,20 +142,19 @@ class SimSet(set):
 
     def __init__(self, iterable=()):
         super().__init__()
-        self._seq = {}
+        self._seq = {}              # insertion order (dicts keep it)
         if isinstance(iterable, SimSet):
-            for e in iterable._seq:
-                self._seq[e] = iterable._seq[e]
-                set.add(self, e)
+            self._seq.update(iterable._seq)
+            set.update(self, iterable._seq)
         else:
             for e in iterable:
                 self.add(e)
 
     def add(self, e):
-        if e not in self._seq:
-            SimSet._counter += 1
-            self._seq[e] = SimSet._counter
-        set.add(self, e)
+        seq = self._seq
+        if e not in seq:
+            seq[e] = None
+            set.add(self, e)
 
     def discard(self, e):
         self._seq.pop(e, None)
@@ -184,7 +183,7 @@ class SimSet(set):
         return SimSet(self)
 
     def _order(self):
-        items = sorted(self._seq, key=self._seq.__getitem__)
+        items = list(self._seq)
         p = Sched.policy
         if p == 'lifo':
             items.reverse()
